@@ -3,7 +3,7 @@
 # Applies a behaviour-preserving refactoring to a scratch copy of /repo, confirms it (build, suite, equivalence test) and
 # runs the checks, which must stay silent.
 set -u
-out=$1; shift
+out=$(realpath $1); shift
 export GOFLAGS=-mod=mod GOPROXY=off GOSUMDB=off GOTOOLCHAIN=local
 pkg=$(python3 -c "import json;print(json.load(open('$out/meta.json'))['package_dir'])")
 d=$(mktemp -d /tmp/refc.XXXXXX)
